@@ -127,8 +127,8 @@ def model_stage(R, prop, tier, rules=None, export_mod=0, c03=False, known=None):
         return
     scopes = [dict(nc=3, maxb=3, maxm=2, seatset=(1, 2), ties=[(1, 2, 3), (3, 1, 2)])]
     if tier == 'thorough':
-        scopes = [dict(nc=3, maxb=5, maxm=3, seatset=(1, 2, 3), ties=[(1, 2, 3), (3, 1, 2), (2, 3, 1)]),
-                  dict(nc=4, maxb=3, maxm=2, seatset=(1, 2, 3), ties=[(1, 2, 3, 4), (4, 2, 3, 1)])]
+        scopes = [dict(nc=3, maxb=4, maxm=2, seatset=(1, 2, 3), ties=[(1, 2, 3), (3, 1, 2), (2, 3, 1)]),
+                  dict(nc=4, maxb=3, maxm=1, seatset=(1, 2, 3), ties=[(1, 2, 3, 4), (4, 2, 3, 1)])]
     for sc in scopes:
         unds = [(), (1,)] if any(c['rule'] == 'mpls' for c in cfgs) else [()]
         res = model.mc_run(cfgs, check=[prop] if not c03 else ['C01', 'C09'], export=export_mod, unds=unds,
@@ -157,7 +157,8 @@ def model_stage(R, prop, tier, rules=None, export_mod=0, c03=False, known=None):
             else:
                 raise vlib.Machinery('SPEC-DIVERGENCE: the model violates %s on %s but the real code does not: %s' % (prop, h['rule'], json.dumps(pl['fails'])))
         elif 'Error:' in res['out']:
-            raise vlib.Machinery('TLC error:\n' + res['out'][-3000:])
+            i = res['out'].find('Error:')
+            raise vlib.Machinery('TLC error:\n' + res['out'][max(0, i - 300):i + 2500])
         cases = model.cases_of(res['out'])
         nd = 0
         for case in cases:
@@ -271,7 +272,7 @@ def check_counts(prop, tier):
     known = known_ids()
     rules = RULESET.get(prop, drive.RULES)
     nprof = NPROFILES[tier]
-    model_stage(R, prop, tier, rules=rules, export_mod=(97 if tier == 'quick' else 29), known=known)
+    model_stage(R, prop, tier, rules=rules, export_mod=(97 if tier == 'quick' else 397), known=known)
     if prop == 'C01':
         liveness_stage(R, tier)
     traces, meta = [], {}
@@ -411,7 +412,7 @@ def check_c03(tier):
     known = known_ids()
     devs = [d for d in model.ALL_DEVS if model.DEV_FINDING[d] in known]
     # (M) + (S->C): exhaustive small scope, every exported case replayed, all fields compared
-    model_stage(R, prop, tier, rules=drive.STATUTORY, export_mod=(11 if tier == 'quick' else 3), c03=True, known=known)
+    model_stage(R, prop, tier, rules=drive.STATUTORY, export_mod=(11 if tier == 'quick' else 89), c03=True, known=known)
     # (C->S): lock-step conformance of recorded traces on the random scope
     nprof = 150 if tier == 'quick' else 2500
     traces, meta = [], {}
